@@ -319,6 +319,8 @@ func pathExpr(v ssa.Value) string {
 		name := "?"
 		if f := x.Call.StaticCallee(); f != nil {
 			name = f.Name()
+		} else if bi, ok := x.Call.Value.(*ssa.Builtin); ok {
+			name = bi.Name()
 		} else if x.Call.IsInvoke() {
 			name = x.Call.Method.Name()
 			args = append([]string{pathExpr(x.Call.Value)}, args...)
